@@ -20,6 +20,12 @@ parts (each case is one table / spline):
              the component + Euler identity <df/dv, v> = f).
   splinecomp SplineComp partials w.r.t. the control points (same oracles; akima: complex step through the
              component + Euler identity).
+  splinemulti / tablemulti / interleave / cachestate (omv/gen/c16_kit.py): derivative state that is cached, shared
+             or reused - several splines on one SplineComp, several tables on one MetaModelStructuredComp /
+             MetaModelSemiStructuredComp (partials of EVERY output w.r.t. every input and every control-point /
+             training array), several InterpND objects alive at once and called in interleaved order, and call
+             sequences around one object's cache (x1, x2, x1 again; value-only call then gradient; batched then
+             single; query / value arrays changed in place between two calls; returned arrays must stay unchanged).
 
 Smoothness of akima (why no difference formula is used for it except along axis 0 of a table): a 1-D akima
 spline is a cubic in x inside a cell, but its end slopes b = (|m4-m3| m2 + |m2-m1| m3)/(|m4-m3| + |m2-m1|) are
@@ -54,7 +60,9 @@ RULE = ('cases enumerated over (part x method) with random dimension 1-3, per-ax
         'kinds, spacing ratios up to 20, akima options (delta_x, eps), bsplines options (order, x_cp_start/end), '
         'vec_size 1-3; query points strictly inside cells (>= 10% of the cell from a breakpoint); the akima '
         'component partials also on a 4-D table and at extrapolated points (10-50% of the end cell beyond an end '
-        'node); distinct = '
+        'node); components with 2-4 splines / 2-3 tables each (different random values, vec_size > 1, with and '
+        'without units, training_data_gradients on/off, add order permuted), 2-4 InterpND objects called in '
+        'interleaved order, cache call sequences incl. in-place changes of the caller\'s arrays; distinct = '
         'distinct (part, method, point counts, kinds, options); non-trivial = at least one derivative judged')
 LEVEL_TEXT = 'randomised exploration with derived tolerances over every method and every derivative-returning API'
 ASSUMPTIONS = ['points on breakpoints (grid nodes; cell mid-points for even-order scipy splines) are excluded: the '
@@ -62,8 +70,13 @@ ASSUMPTIONS = ['points on breakpoints (grid nodes; cell mid-points for even-orde
                'akima is not linear in the table values (by construction); for it the derivative w.r.t. values is '
                'checked by complex step / differences, not by the linearity identity',
                'fixed-dimension methods do not offer training gradients (documented) and are not asked for them',
-               'cases whose derived tolerance exceeds 1e-6 (relative) are discarded as ill-conditioned']
-MIN_JUDGED = {'quick': 200, 'thorough': 4000}
+               'cases whose derived tolerance exceeds 1e-6 (relative) are discarded as ill-conditioned',
+               'the caller may change its own query / value arrays in place between two calls: an answer must '
+               'belong to the array contents at the time of the call (gradient() documents that it re-interpolates '
+               'when the point differs from the cached one)',
+               'MetaModelSemiStructuredComp is driven on full meshes only (the value tolerance of the structured '
+               'method of the same name applies there)']
+MIN_JUDGED = {'quick': 300, 'thorough': 4000}
 SHARD_TIMEOUT = {'quick': 600, 'thorough': 2400}
 
 GENERAL = ['slinear', 'lagrange2', 'lagrange3', 'cubic', 'akima',
